@@ -211,6 +211,7 @@ func wrapTo(t *Term, bits uint, unsigned bool) *Term {
 // Exec: one verification run over a loaded program
 
 type Exec struct {
+	CurProp  string // id of the property being verified
 	P        *Program
 	DB       *SpecDB
 	UFs      map[string]*UFSig
